@@ -272,12 +272,57 @@ def views_job(arg):
     return rep
 
 
+def open_job(arg):
+    """Opening a store on directories that are in use (files of a writer that is in the middle of storing a blob are
+    there) changes nothing that exists: no file disappears or changes."""
+    iform, cache = arg
+    from vp import storemodel as SM
+
+    rep = core.Report("C16")
+    rep.evaluations = 1
+    case = {"open": True, "internal_form": iform, "cache_objects": cache}
+    with core.Scratch("vp_c16o_") as base0:
+        base = os.path.realpath(base0)
+        igiven, iabs = dir_for(iform, base, "internal")
+        d1, d2 = os.path.join(base, "view1"), os.path.join(base, "view2")
+        o = core.fork_call(_proc, (base, igiven, d1, cache, [("keep1",), ("keep_q",)]), timeout=120)
+        if isinstance(o, core.JobFailed) or (o and o[0][0] == "set_store"):
+            rep.inconclusive.append("open job: first process failed: %r" % (o,))
+            return rep
+        bdir = os.path.join(iabs, "blobs")
+        if not os.path.isdir(bdir):
+            rep.inconclusive.append("no blobs directory under %s" % iabs)
+            return rep
+        key = "f" * 64
+        planted = [".%s.tmp.%d.%s" % (key, 4242, "0123456789abcdef0123456789abcdef"), ".%s.meta.tmp.%d.%s" % (key, 4242, "fedcba9876543210fedcba9876543210"), "%s.partial" % key, "notes.txt"]
+        for fn in planted:
+            with open(os.path.join(bdir, fn), "wb") as f:
+                f.write(b"in-flight " + fn.encode())
+        roots = [iabs, d1]
+        before = dict((r, SM.walk(r)) for r in roots)
+        for label, dd, acts in (("another data view", d2, []), ("the same data view", d1, [("load", "/c16/x/one")]), ("another data view + keep", d2, [("keep1",)])):
+            o = core.fork_call(_proc, (base, igiven, dd, cache, acts), timeout=120)
+            rep.count("observations")
+            if isinstance(o, core.JobFailed) or (o and o[0][0] == "set_store"):
+                rep.violate("opening a store (%s) on directories in use raised %r" % (label, o if isinstance(o, core.JobFailed) else o[0][2]), case, mechanism=mech(iform, "absolute", "open"))
+                return rep
+            for r in roots:
+                now = SM.walk(r)
+                gone = sorted(k for k in before[r] if k not in now)
+                changed = sorted(k for k in before[r] if k in now and before[r][k] != now[k] and before[r][k][0] == "file")
+                if gone or changed:
+                    rep.violate("opening a store (%s, internal=%s cache=%r) on directories in use removed %r / changed %r" % (label, iform, cache, gone[:3], changed[:3]), case, mechanism="open-store-disturbs-existing-files")
+                    return rep
+    rep.nontriv(("c16o", iform, repr(cache)))
+    return rep
+
+
 def run(tier, seed):
     rep = core.Report("C16")
     rep.rule = (
         "internal_dir x data_dir forms %r (all combinations) x cache_objects %r; per configuration: process A keeps two nodes, loads, re-keeps, chdirs, loads and re-keeps again; "
         "process B (other cwd, absolute real paths) and process C (same cwd and spelling) load and re-keep with an empty execution log; two-view scripts (one internal dir, two data dirs) in one process and "
-        "with one process per view switch. distinct_nontrivial = distinct configurations whose processes were all observed." % (FORMS, CACHE)
+        "with one process per view switch; and opening further stores on directories that hold the files of a writer in mid-flight (nothing that exists may disappear or change). distinct_nontrivial = distinct configurations whose processes were all observed." % (FORMS, CACHE)
     )
     jobs = []
     for i, iform in enumerate(FORMS):
@@ -290,8 +335,12 @@ def run(tier, seed):
             for sp in (True, False):
                 jobs.append(("views", (iform, c, sp)))
 
+    for iform in FORMS:
+        for c in (CACHE if tier != "quick" else [None, 3]):
+            jobs.append(("open", (iform, c)))
+
     def dispatch(j):
-        return {"case": case_job, "views": views_job}[j[0]](j[1])
+        return {"case": case_job, "views": views_job, "open": open_job}[j[0]](j[1])
 
     results = core.fork_map(dispatch, jobs, timeout=600)
     for j, r in zip(jobs, results):
@@ -308,7 +357,9 @@ def run(tier, seed):
 def replay(payload):
     rep = core.Report("C16")
     c = payload["case"]
-    if c.get("views"):
+    if c.get("open"):
+        rep.merge(open_job((c["internal_form"], c["cache_objects"])))
+    elif c.get("views"):
         rep.merge(views_job((c["internal_form"], c["cache_objects"], c["same_process"])))
     else:
         rep.merge(case_job((c["internal_form"], c["data_form"], c["cache_objects"])))
